@@ -1,4 +1,5 @@
 P = "github.com/tochemey/goakt/v4/actor."
+W = "(*" + P + "workPullingProducerController)."
 SUB = {
     "(*" + P + "workPullingProducerController).tell": P + "vC44_wtell",
     "(*" + P + "ReceiveContext).Shutdown": P + "vRD_shutdown",
@@ -16,7 +17,8 @@ CHECK = {
         {"fn": P + "vC44_step", "replay": "model-only", "cases": {"kind": [0, 1, 2, 3, 4, 5, 6]},
          "cover_optional": ("terminated", "job-confirmed", "job-accepted", "job-requeued", "dispatched", "joined")},
     ],
-    "opts": {"unwind": 8, "substitute": SUB, "feasibility": False},
+    "opts": {"unwind": 8, "substitute": SUB, "feasibility": False, "fresh_solver": True,
+             "loop_bounds": {W + "dispatchPending": 4, W + "nextEligibleBinding": 3}},
     "stop": [k for k in SUB.keys() if k.startswith("(*" + P)],
     "timeout_ms": {"quick": 400000, "thorough": 1800000},
     "explanation": "TODO",
